@@ -71,6 +71,11 @@ M.assume('A-RESOLVED: class key letters, association numbers and core type names
 
 ALL_GHOST = GHOST_INT + GHOST_REF + GHOST_POS
 FRESH_ONLY = ['fresh:Class.' + f for f in ALL_GHOST]
+# what a nested statement may do to instances that existed before it: give a variable its type and migrate its subtype (assignment)
+RETYPED = ['n814', 'n848', 'typ', 'nav_S_DT_R848']
+NESTED = ['fresh:Class.' + f for f in ALL_GHOST if f not in RETYPED] + ['Class.' + f for f in RETYPED] + ['Node.built']
+ONLY_VARIABLES_RETYPED = ('all(implies(old(allocated(x)) and kind_of(x) != "V_VAR", ' + ' and '.join(
+    ('same(x.%s, old(x.%s))' % (f, f)) for f in RETYPED) + ') for x in anyref("Class"))')
 
 
 def both(fmt):
@@ -170,8 +175,9 @@ M.contract('bridgepoint.prebuild.ActionPrebuilder.accept', [('self', PB), ('node
                             'and as_ref(result).nprev == 0 and as_ref(result).nnext == 0)',
                     'block': 'implies(node is not None and is_block(node), is_ref(result) and fresh(as_ref(result)) and kind_of(as_ref(result)) == "ACT_BLK")',
                     'scopes-restored': 'self.symtab.scopes == old(self.symtab.scopes)',
+                    'of-older-instances-only-variables-are-retyped': ONLY_VARIABLES_RETYPED,
                     'built-elsewhere-kept': 'all(implies(not in_subtree(m, node), same(m.built, old(m.built))) for m in anyref("Node"))'},
-           modifies=FRESH_ONLY + ['Node.built', 'self.symtab.version'], ghost={'allocates': True})
+           modifies=NESTED + ['self.symtab.version'], ghost={'allocates': True})
 
 NOKW = {'kwargs': PyDict({})}
 REQ = {'walker': 'self.symtab is not None and node is not None and node.position is not None',
@@ -240,7 +246,7 @@ def statement(handler, extra_req=None, nested=False, extra_ens=None):
            'scopes-restored': 'self.symtab.scopes == old(self.symtab.scopes)'}
     ens.update(extra_ens or {})
     M.contract('bridgepoint.prebuild.ActionPrebuilder.' + handler, [('self', PB), ('node', NODE)], returns=INST, requires=req, ensures=ens,
-               modifies=MOD + ['self.symtab.version'] + (['Node.built'] if nested else []))
+               modifies=(NESTED if nested else MOD) + ['self.symtab.version'])
 
 
 def resolved(*attrs):
@@ -269,7 +275,7 @@ for h, extra in (('accept_ElIfNode', 'node.expression is not None and is_value(n
                ensures={'one-statement-with-exactly-one-subtype-in-the-current-block': 'fresh(result) and complete_statement(result, blk(self))',
                         'carries-the-position-of-its-source-text': 'positions_copied(result, node)',
                         'scopes-restored': 'self.symtab.scopes == old(self.symtab.scopes)'},
-               modifies=MOD + ['self.symtab.version', 'Node.built'])
+               modifies=NESTED + ['self.symtab.version'])
 statement('accept_ForEachNode', dict(resolved('set_variable_name'), **{'children': 'node.block is not None and is_block(node.block)',
           'set-variable-is-typed': 'first_of(lookup(self.symtab, self.symtab.version, node.set_variable_name), "V_INS[R814].O_OBJ[R819]") is not None '
                                    'and lower(node.set_variable_name) != "sender" and lower(node.instance_variable_name) != "sender"'}), nested=True)
@@ -278,7 +284,7 @@ statement('accept_ForEachNode', dict(resolved('set_variable_name'), **{'children
 BLK = {'a-new-block-of-the-action': 'fresh(result) and kind_of(result) == "ACT_BLK"', 'scopes-restored': 'self.symtab.scopes == old(self.symtab.scopes)'}
 M.contract('bridgepoint.prebuild.ActionPrebuilder.accept_BlockNode', [('self', PB), ('node', NODE)], returns=INST,
            requires={'walker': 'self.symtab is not None and node is not None and self.act_act is not None and kind_of(self.act_act) != "ACT_BLK"'}, ensures=BLK,
-           modifies=MOD + ['self.symtab.version', 'self.symtab.scopes', 'Node.built'])
+           modifies=NESTED + ['self.symtab.version', 'self.symtab.scopes'])
 
 # ---- values
 VREQ = dict(REQ)
@@ -294,7 +300,7 @@ def value(handler, typ=None, extra_req=None, nested=False, extra_ens=None):
         ens['typed-as-the-language-says'] = 'result.typ is type_named("%s")' % typ
     ens.update(extra_ens or {})
     M.contract('bridgepoint.prebuild.ActionPrebuilder.' + handler, [('self', PB), ('node', NODE)], returns=INST, requires=req, ensures=ens,
-               modifies=MOD + ['self.symtab.version'] + (['Node.built'] if nested else []))
+               modifies=(NESTED if nested else MOD) + ['self.symtab.version'])
 
 
 value('accept_BooleanNode', 'boolean')
@@ -335,7 +341,7 @@ M.contract('bridgepoint.prebuild.ActionPrebuilder.accept_StatementListNode', [('
            ensures={'each-statement-chained-to-its-neighbour-in-source-order-none-at-the-ends': 'chain_so_far(node.children, len(node.children))',
                     'each-statement-complete': 'all(complete_statement_in_chain(b(c), blk(self)) for c in node.children)',
                     'scopes-restored': 'self.symtab.scopes == old(self.symtab.scopes)'},
-           modifies=MOD + ['self.symtab.version', 'Node.built'],
+           modifies=NESTED + ['self.symtab.version'],
            loops={0: Loop(inv={'walks-the-children': '_seq == node.children',
                                'chained-so-far': 'chain_so_far(node.children, _i)',
                                'complete-so-far': 'all(complete_statement_in_chain(b(node.children[j]), blk(self)) for j in range(0, _i))',
@@ -365,7 +371,7 @@ M.contract('bridgepoint.prebuild.ActionPrebuilder.accept_NavigationListNode', [(
            ensures={'each-step-chained-to-its-neighbour-in-source-order-none-at-the-ends': 'rchain_so_far(node.children, len(node.children))',
                     'returns-the-first-step': 'same(result, None if len(node.children) == 0 else node.children[0].built)',
                     'scopes-restored': 'self.symtab.scopes == old(self.symtab.scopes)'},
-           modifies=MOD + ['self.symtab.version', 'Node.built'],
+           modifies=NESTED + ['self.symtab.version'],
            loops={0: Loop(inv={'walks-the-children-backwards': 'len(_seq) == len(node.children) and all(_seq[j] is node.children[len(node.children) - 1 - j] for j in range(0, len(_seq)))',
                                'chained-so-far': 'rchain_so_far(node.children, _i)',
                                'previous': 'same(prev, None if _i == 0 else node.children[len(node.children) - _i].built)',
@@ -375,7 +381,7 @@ M.contract('bridgepoint.prebuild.ActionPrebuilder.accept_NavigationListNode', [(
 M.contract('bridgepoint.prebuild.ActionPrebuilder.accept_BodyNode', [('self', PB), ('node', NODE)], returns=INST,
            requires={'walker': 'self.symtab is not None and node is not None and node.block is not None and self.act_act is not None and kind_of(self.act_act) != "ACT_BLK"'},
            ensures={'returns-the-action': 'result is self.act_act', 'scopes-restored': 'self.symtab.scopes == old(self.symtab.scopes)'},
-           modifies=MOD + ['self.symtab.version', 'self.symtab.scopes', 'Node.built'])
+           modifies=NESTED + ['self.symtab.version', 'self.symtab.scopes'])
 M.spec('''
 def typed_variable(v):
     return v is not None and allocated(v) and kind_of(v) == 'V_VAR' and v.nav_S_DT_R848 is not None and kind_of(v.nav_S_DT_R848) == 'S_DT'
@@ -406,7 +412,7 @@ for h in ('accept_ParameterNode', 'accept_EventDataItemNode'):
                requires=dict(REQ, **{'children': 'node.expression is not None and is_value(node.expression)'}),
                ensures={'an-unchained-parameter-carrying-its-value': 'fresh(result) and kind_of(result) == "V_PAR" and result.nprev == 0 and result.nnext == 0',
                         'scopes-restored': 'self.symtab.scopes == old(self.symtab.scopes)'},
-               modifies=MOD + ['self.symtab.version', 'Node.built'])
+               modifies=NESTED + ['self.symtab.version'])
 M.spec('''
 def pchain_so_far(kids, k):
     n = len(kids)
@@ -421,8 +427,39 @@ M.contract('bridgepoint.prebuild.ActionPrebuilder.accept_ParameterListNode', [('
                      'invocation': '(act_smt is None or (allocated(act_smt) and kind_of(act_smt) == "ACT_SMT")) and (v_val is None or (allocated(v_val) and kind_of(v_val) == "V_VAL"))'},
            ensures={'each-parameter-chained-to-its-neighbour-in-source-order-none-at-the-ends': 'pchain_so_far(node.children, len(node.children))',
                     'scopes-restored': 'self.symtab.scopes == old(self.symtab.scopes)'},
-           modifies=MOD + ['self.symtab.version', 'Node.built'],
+           modifies=NESTED + ['self.symtab.version'],
            loops={0: Loop(inv={'walks-the-children-backwards': 'len(_seq) == len(node.children) and all(_seq[j] is node.children[len(node.children) - 1 - j] for j in range(0, len(_seq)))',
                                'chained-so-far': 'pchain_so_far(node.children, _i)',
                                'previous': 'same(prev_v_par, None if _i == 0 else node.children[len(node.children) - _i].built)',
                                'scopes': 'self.symtab.scopes == old(self.symtab.scopes)'})})
+
+# ---- attribute / member values, index access, statements around one value
+M.contract('bridgepoint.prebuild.ActionPrebuilder.v_avl', [('self', PB), ('node', NODE), ('o_attr', INST), ('root_v_val', INST)], returns=INST,
+           requires=dict(REQ, **{'attribute-typed': 'o_attr is not None and kind_of(o_attr) == "O_ATTR" and (first_of(o_attr, "O_RATTR[R106].O_BATTR[R113].O_ATTR[R106].S_DT[R114]") is not None '
+                                                    'or first_of(o_attr, "S_DT[R114]") is not None)',
+                                 'root': 'root_v_val is not None and allocated(root_v_val) and kind_of(root_v_val) == "V_VAL"'}),
+           ensures={'a-complete-value-typed-as-the-attribute-declares':
+                    'fresh(result) and kind_of(result) == "V_AVL" and fresh(result.nav_V_VAL_R801) and complete_value(result.nav_V_VAL_R801, blk(self)) '
+                    'and result.nav_V_VAL_R801.typ is (first_of(o_attr, "O_RATTR[R106].O_BATTR[R113].O_ATTR[R106].S_DT[R114]") '
+                    'if first_of(o_attr, "O_RATTR[R106].O_BATTR[R113].O_ATTR[R106].S_DT[R114]") is not None else first_of(o_attr, "S_DT[R114]"))',
+                    'carries-the-position-of-its-source-text': 'positions_copied(result.nav_V_VAL_R801, node)'},
+           modifies=MOD)
+M.contract('bridgepoint.prebuild.ActionPrebuilder.v_mvl', [('self', PB), ('node', NODE), ('s_mbr', INST), ('root_v_val', INST)], returns=INST,
+           requires=dict(REQ, **{'member-typed': 's_mbr is not None and kind_of(s_mbr) == "S_MBR" and first_of(s_mbr, "S_DT[R45]") is not None',
+                                 'root': 'root_v_val is not None and allocated(root_v_val) and kind_of(root_v_val) == "V_VAL"'}),
+           ensures={'a-complete-value-typed-as-the-member-declares':
+                    'fresh(result) and kind_of(result) == "V_MVL" and fresh(result.nav_V_VAL_R801) and complete_value(result.nav_V_VAL_R801, blk(self)) '
+                    'and result.nav_V_VAL_R801.typ is first_of(s_mbr, "S_DT[R45]")',
+                    'carries-the-position-of-its-source-text': 'positions_copied(result.nav_V_VAL_R801, node)'},
+           modifies=MOD)
+M.fields({'Node.variable_access': NODE})
+statement('accept_GeneratePreexistingNode', {'children': 'node.variable_access is not None and is_value(node.variable_access)'}, nested=True)
+# accept_InvocationStatementNode is deliberately not under contract: its statement gets its subtype inside the invocation handler it
+# passes the statement to, which the induction hypothesis of accept() (instances that existed before are left alone) does not cover.
+
+# every handler that evaluates children re-establishes the frame half of the induction hypothesis for its own node
+for _q, _ct in M.contracts.items():
+    if not _ct.trusted and 'Class.typ' in _ct.modifies:
+        _ct.ensures.setdefault('of-older-instances-only-variables-are-retyped', ONLY_VARIABLES_RETYPED)
+for _q in ('accept_StatementListNode', 'accept_NavigationListNode', 'accept_ParameterListNode'):
+    M.contracts['bridgepoint.prebuild.ActionPrebuilder.' + _q].loops[0].inv['of-older-instances-only-variables-are-retyped'] = ONLY_VARIABLES_RETYPED
